@@ -950,6 +950,10 @@ class Frame:
         elif isinstance(target, ast.Subscript):
             obj = self.eval(target.value)
             key = self.eval(target.slice)
+            hook = getattr(obj, "_pyvc_setitem", None)      # (additive) theory-backed collections, vc.pycoll
+            if hook is not None:
+                hook(self.eng, key, v)
+                return
             if isinstance(obj, (dict, list)) and not is_sym(key) and not isinstance(key, (SymEnum, Opaque)):
                 if getattr(obj, "_frozen_origin", None):
                     self.eng.oblige(False, f"mutation of module-level table {obj._frozen_origin}")  # type: ignore
@@ -978,6 +982,9 @@ class Frame:
                 return smt.Ne(v, "")
         if isinstance(v, SymSet):
             return Or(*v.mem.values())
+        hook = getattr(v, "_pyvc_truth", None)              # (additive) theory-backed collections, vc.pycoll
+        if hook is not None:
+            return hook(self.eng)
         if isinstance(v, (SymEnum, ClassV, FuncV, ObjV, ModuleV, BuiltinClass)):
             return True
         if isinstance(v, Opaque):
@@ -1083,6 +1090,9 @@ class Frame:
                     d.update(sub)
                 else:
                     kk = self.eval(k)
+                    if is_sym(kk) and len(e.keys) == 1:
+                        d[kk] = self.eval(v)          # (additive) one-entry literal {name: value}: no aliasing possible
+                        continue
                     if is_sym(kk) or isinstance(kk, (SymEnum, Opaque)):
                         raise OutsideSubset("dict literal with symbolic key")
                     d[kk] = self.eval(v)
@@ -1170,6 +1180,9 @@ class Frame:
             return list(it)
         if isinstance(it, DictItems):
             return list(it.items)
+        hook = getattr(it, "_pyvc_iter", None)              # (additive) theory-backed collections, vc.pycoll
+        if hook is not None:
+            return list(hook(self.eng))
         raise OutsideSubset(f"iteration over {type(it).__name__} (symbolic collections need a loop contract)")
 
     def to_str(self, x: Any, spec: Any = None) -> Any:
@@ -1311,6 +1324,9 @@ class Frame:
             return Opaque("membership on unmodelled value")
         if isinstance(container, SymSet):
             return container.contains(item)
+        hook = getattr(container, "_pyvc_contains", None)   # (additive) theory-backed collections, vc.pycoll
+        if hook is not None:
+            return hook(self.eng, item)
         if isinstance(container, (set, frozenset, list, tuple)):
             return Or(*[self.equals(item, x) for x in container])
         if isinstance(container, dict):
